@@ -33,8 +33,8 @@ fn check(text: &str, labels: &[B]) -> Option<String> {
     match std::panic::catch_unwind(move || check_inner(&t2, &l2)) {
         Ok(r) => r,
         Err(_) => Some(format!(
-            "{{\"replay_arg\":{:?},\"text\":{:?},\"labels\":\"{}\",\"actual\":\"panic in iter_tokens/surface/write_tokenized_text\"}}",
-            format!("{}|{}", text, l), text, l
+            "{{\"replay_arg\":{},\"text\":{},\"labels\":\"{}\",\"actual\":\"panic in iter_tokens/surface/write_tokenized_text\"}}",
+            crate::js(&format!("{}|{}", text, l)), crate::js(text), l
         )),
     }
 }
@@ -67,8 +67,8 @@ fn check_inner(text: &str, labels: &[B]) -> Option<String> {
             })
             .collect();
         return Some(format!(
-            "{{\"replay_arg\":{:?},\"text\":{:?},\"labels\":\"{}\",\"expected\":\"{:?}\",\"actual\":\"{:?}\",\"written\":{:?}}}",
-            format!("{}|{}", text, l), text, l, want, got, buf
+            "{{\"replay_arg\":{},\"text\":{},\"labels\":\"{}\",\"expected\":{},\"actual\":{},\"written\":{}}}",
+            crate::js(&format!("{}|{}", text, l)), crate::js(text), l, crate::js(&format!("{:?}", want)), crate::js(&format!("{:?}", got)), crate::js(&buf)
         ));
     }
     None
